@@ -195,18 +195,37 @@ impl LruManager {
     /// Checkpoint the current state to disk.
     ///
     /// 1. Serialize the table with MD5 hash
-    /// 2. Write to new generation file
+    /// 2. Write to a temp file, fsync it, rename it to the new generation file
     /// 3. Delete previous generation file
+    ///
+    /// The rename makes the checkpoint atomic: a crash at any point leaves
+    /// either the previous checkpoint or the complete new one, also when the
+    /// generation was not bumped and the file replaces itself.
     pub async fn checkpoint_to_disk(&mut self) -> crate::Result<()> {
+        use tokio::io::AsyncWriteExt;
+
         let data = serialize(&self.header, &self.entries);
         let path = lru_file_path(&self.data_dir, self.generation);
+        // `<generation>.tmp` does not parse as a generation file name, so a
+        // leftover temp file is never picked up by `find_latest_lru_file`.
+        let temp_path = path.with_extension("tmp");
 
-        tokio::fs::write(&path, &data).await.map_err(|e| {
-            crate::StorageError::Cache(format!(
+        let written: std::io::Result<()> = async {
+            let mut file = tokio::fs::File::create(&temp_path).await?;
+            file.write_all(&data).await?;
+            file.flush().await?;
+            file.sync_all().await?;
+            drop(file);
+            tokio::fs::rename(&temp_path, &path).await
+        }
+        .await;
+        if let Err(e) = written {
+            let _ = tokio::fs::remove_file(&temp_path).await;
+            return Err(crate::StorageError::Cache(format!(
                 "failed to write LRU checkpoint to {}: {e}",
                 path.display()
-            ))
-        })?;
+            )));
+        }
 
         debug!(
             "LRU checkpoint: generation {} -> {}",
